@@ -50,7 +50,7 @@ EVIDENCE = {
     "rule": "one case = one generated program tree (depth<=3, <=3 children per node, <=30 leaves; or a grid of <=27 points), one sampler configuration (BruteForceSampler seed/avoid_premature_stop, or GridSampler seed), one deployment, and one chunk list (per optimize call: n_trials / stopping callback / fault per trial index / resume style). Non-trivial = at least 3 leaves and (some fault fired or the run was split over >=2 optimize calls); distinct = distinct digests of the evaluation order with outcomes and chunk endings.",
     "assumptions": [
         "sequential only: one optimize call at a time, n_jobs=1 (the property says sequential)",
-        "every parameter name keeps one distribution throughout a program (the sampler documents that changing ranges may defeat it)",
+        "a parameter name keeps its kind (and categorical choices, log flag) throughout a program, as the storage requires; an int/float name may have a different range at a different tree node (the sampler's docstring example), never two ranges at the same node",
         "faults are injected only after the last suggest of a trial (before that the evaluated combination is not determined)",
         "a finished search is never resumed (BruteForceSampler/GridSampler re-evaluate a point by design when optimize is called on an exhausted study)",
         "failed, pruned and interrupted evaluations count as visits (as both samplers define); an evaluation cut by a process kill does not (its trial stays RUNNING)",
@@ -141,6 +141,13 @@ def suggest(trial: Any, name: str, spec: dict) -> Any:
 
 
 # ---------------------------------------------------------------------- programs
+def node_spec(prog: dict, node: dict) -> dict:
+    """The distribution suggested at this node: the parameter's usual one, or a range of its
+    own (`b = trial.suggest_int("b", a, 3)` of the sampler's docstring: same name, same kind,
+    another range in another branch)."""
+    return node.get("spec") or prog["params"][node["p"]]
+
+
 def tree_leaves(prog: dict) -> list[str]:
     params = prog["params"]
     out: list[str] = []
@@ -149,7 +156,7 @@ def tree_leaves(prog: dict) -> list[str]:
         if node is None or node.get("p") not in params or node["p"] in combo:
             out.append(key_of(combo))
             return
-        dom = domain(params[node["p"]])
+        dom = domain(node_spec(prog, node))
         ch = node.get("ch") or []
         for i, v in enumerate(dom):
             c = dict(combo)
@@ -180,7 +187,7 @@ def walk_tree(trial: Any, prog: dict) -> tuple[str | None, str]:
     combo: dict = {}
     while node is not None and node.get("p") in params and node["p"] not in combo:
         name = node["p"]
-        spec = params[name]
+        spec = node_spec(prog, node)
         v = suggest(trial, name, spec)
         dom = domain(spec)
         i = index_in(dom, v)
@@ -230,9 +237,17 @@ def _gen_tree(rng: random.Random, depth: int, used: tuple, params: dict, p_stop:
     if depth == 0 or not free or rng.random() < p_stop:
         return None
     name = rng.choice(free)
+    own = None
     if name not in params:
         params[name] = _gen_spec(rng)
-    n = len(domain(params[name]))
+    elif params[name]["t"] != "cat" and rng.random() < 0.5:
+        # the name was used in another branch: here it gets a range of its own
+        for _ in range(20):
+            cand = _gen_spec(rng)
+            if cand["t"] == params[name]["t"] and bool(cand.get("log")) == bool(params[name].get("log")):
+                own = cand
+                break
+    n = len(domain(own or params[name]))
     shared = None
     if rng.random() < 0.35:
         shared = _gen_tree(rng, depth - 1, used + (name,), params, p_stop)
@@ -242,7 +257,10 @@ def _gen_tree(rng: random.Random, depth: int, used: tuple, params: dict, p_stop:
             ch.append(json.loads(json.dumps(shared)))
         else:
             ch.append(_gen_tree(rng, depth - 1, used + (name,), params, p_stop + 0.15))
-    return {"p": name, "ch": ch}
+    node = {"p": name, "ch": ch}
+    if own is not None:
+        node["spec"] = own
+    return node
 
 
 def _prune_params(prog: dict) -> None:
@@ -379,7 +397,7 @@ def _prog_str(prog: dict) -> str:
     def rec(node: Any) -> Any:
         if node is None:
             return "."
-        return {node["p"]: [rec(c) for c in node.get("ch") or []]}
+        return {node["p"] + ("@" + json.dumps(node["spec"], sort_keys=True) if node.get("spec") else ""): [rec(c) for c in node.get("ch") or []]}
 
     return "tree %s dists=%s" % (json.dumps(rec(prog.get("tree"))), json.dumps(prog["params"]))
 
